@@ -10,6 +10,7 @@ from ..consteval import EnumMember, const_eval
 from ..index import unparse
 from .. import query as Q
 from ..rules import escape as E
+from ..rules import escape2 as E2
 from .. import substchain
 from .. import tables as T
 
@@ -25,9 +26,10 @@ DEPFILE_FUNC = 'bfg9000.builtins.find:write_depfile'
 def make_sites(ctx):
     repo = ctx.repo
     table, members = E.escape_table(repo, E.MAKE_SYN)
-    sites = E.emission_sites(ctx, MAKE_FUNCS + [DEPFILE_FUNC], E.MAKE_SYN,
-                             members, E.classify_make)
-    ctx.require_min('ESC-MAKE', len(sites), 12, 'make emission sites')
+    sites = E2.writer_sites(ctx, [E.MAKE_SYN + ':Makefile.write',
+                                  DEPFILE_FUNC], E.MAKE_SYN)
+    ctx.ob('ESC-MAKE', 'make-writer-sites|found', len(sites) >= 8, None,
+           'only {} make writer sites found'.format(len(sites)))
     ctx.stat('make_emission_sites', len(sites))
     ctx.stat('make_escape_table', {
         m: ([repr(o) for o in ops] if ops is not None else 'rejected')
@@ -35,25 +37,31 @@ def make_sites(ctx):
     return table, members, sites
 
 
+def _facts(ctx):
+    from ..facts import Facts
+    F = getattr(ctx, '_facts', None)
+    if F is None:
+        F = ctx._facts = Facts(ctx.repo)
+    return F
+
+
 def esc_make_extra(ctx, table):
     """Function-argument context, the comma variable, quoted auto variables."""
+    from ..facts import direct, has, has_call, has_const, param_of
     repo = ctx.repo
+    F = _facts(ctx)
     R = 'ESC-MAKE'
-    # Function.use -> syntax_string(..., Syntax.function, ...)
-    f = repo.method(E.MAKE_SYN + ':Function', 'use')
-    ss = [c for c in Q.calls(f.node) if unparse(c.func) == 'syntax_string']
-    Q.require(len(ss) == 1, 'Function.use: syntax_string construction not '
-              'found')
-    v = const_eval(repo, f.module, ss[0].args[1]) if len(ss[0].args) > 1 \
-        else None
-    ok = isinstance(v, EnumMember) and v.name == 'function'
-    ctx.ob(R, f.fq + '|arguments-use-Syntax.function', ok, ss[0],
+    f = F.fn(E.MAKE_SYN + ':Function.use')
+    ss = F.calls_to(f, 'syntax_string', depth=1)
+    ok = bool(ss) and all(has(e.arg(1, kw='syntax'), 'Syntax.function')
+                          for e in ss)
+    ctx.ob(R, 'MK_FUNCARG|arguments-use-Syntax.function', ok, f.node,
            'arguments of $(call ...)/$(patsubst ...) are not written with '
            'Syntax.function')
     ops = table.get('function')
     for ch, why in sorted(T.MK_FUNCARG.items()):
-        ctx.ob(R, '{}|MK_FUNCARG|Syntax.function|{!r}'.format(f.fq, ch),
-               ops is not None and substchain.altered(ops, ch), ss[0],
+        ctx.ob(R, 'MK_FUNCARG|Syntax.function|{!r}'.format(ch),
+               ops is not None and substchain.altered(ops, ch), f.node,
                '{!r} ({}) is written unescaped inside a function call'
                .format(ch, why))
     # GNU Make splits the arguments of $(call ...) at every comma that is not
@@ -66,56 +74,55 @@ def esc_make_extra(ctx, table):
             ok = isinstance(o.new, str) and ',' in o.new and (
                 o.new.startswith('$(') and o.new.endswith(')') or
                 o.new.startswith('${') and o.new.endswith('}'))
-            ctx.ob(R, "{}|MK_FUNCARG|','-replacement-protected".format(f.fq),
-                   ok, o.node,
+            ctx.ob(R, "MK_FUNCARG|','-replacement-protected", ok, o.node,
                    "a comma inside a function argument is written as {!r}: "
                    "make's argument splitter still sees the bare comma "
                    "(only $(...)/${{...}} references are skipped), so the "
                    "argument is cut in two".format(o.new))
     # syntax_string branch of Writer.write honours the embedded syntax
-    W = repo.method(E.MAKE_SYN + ':Writer', 'write')
-    nested = [c for c in Q.calls(W.node) if unparse(c.func) == 'out.write'
-              and len(c.args) >= 2 and 'thing.syntax' in unparse(c.args[1])]
-    ok = len(nested) == 1 and unparse(nested[0].args[1]) == \
-        'thing.syntax or syntax' and unparse(nested[0].args[0]) == \
-        'thing.data'
-    ctx.ob(R, W.fq + '|syntax_string-uses-own-syntax', ok, W.node,
+    W = F.fn(E.MAKE_SYN + ':Writer.write')
+    nested = [e for e in F.effects(W, lambda e: e.name == 'write', depth=0)
+              if has_call(e.recv(), 'Writer') and has(e.arg(0), 'data')]
+    ok = bool(nested) and all(
+        has(e.arg(1), 'thing.syntax') or has(e.arg(1), 'syntax')
+        for e in nested) and all(
+        any(a.endswith('.syntax') for a in e.arg(1)) and
+        param_of(e.arg(1), 'syntax') for e in nested)
+    ctx.ob(R, 'Writer.write|syntax_string-uses-own-syntax', ok, W.node,
            'embedded syntax_string is not written with its own syntax')
-    if nested and len(nested[0].args) >= 3:
-        ok = unparse(nested[0].args[2]) == \
-            'None if thing.quoted else shell_quote'
-        ctx.ob(R, W.fq + '|syntax_string-quoted-once', ok, nested[0],
-               'a quoted syntax_string must disable inner quoting and be '
-               'wrapped once')
-    # if the function branch emits `$,` the variable `,` must be defined
-    emits_comma_var = ops is not None and any(
-        '$,' in o.text for o in ops)
+    ok = bool(nested) and all(
+        has_const(e.arg(2, kw='shell_quote'), None) and param_of(
+            e.arg(2, kw='shell_quote'), 'shell_quote') and has(
+                e.arg_tests(), 'quoted') for e in nested)
+    ctx.ob(R, 'Writer.write|syntax_string-quoted-once', ok, W.node,
+           'a quoted syntax_string must disable inner quoting and be '
+           'wrapped once')
+    emits_comma_var = ops is not None and any('$,' in o.text for o in ops)
     if emits_comma_var:
-        w = repo.method(E.MAKE_SYN + ':Makefile', 'write')
-        defs = [c for c in Q.calls(w.node) if unparse(c.func) ==
-                'self._write_variable' and len(c.args) >= 3 and
-                unparse(c.args[1]) == "Variable(',')" and
-                const_eval(repo, w.module, c.args[2]) == ',']
-        ctx.ob(R, w.fq + '|comma-variable-defined', len(defs) == 1, w.node,
-               'escape_str emits `$,` but Makefile.write does not define '
-               'the variable `,` := ,')
-    # quoted automatic variables
-    f = repo.method(E.MAKE_SYN + ':Variable', 'use')
-    wraps = [n for n in ast.walk(f.node) if isinstance(n, ast.If) and
-             'quoted' in unparse(n.test)]
+        w = F.fn(E.MAKE_SYN + ':Makefile.write')
+        defs = [e for e in F.calls_to(w, '_write_variable', depth=1)
+                if any("Variable(',')" in a for a in e.all_args()) and
+                has_const(e.all_args(), ',')]
+        ctx.ob(R, 'Makefile.write|comma-variable-defined', bool(defs),
+               w.node, 'escape_str emits `$,` but Makefile.write does not '
+               'define the variable `,` := ,')
+    f = F.fn(E.MAKE_SYN + ':Variable.use')
+    wraps = [e for e in F.calls_to(f, 'wrap_quotes', depth=1)
+             if has(e.control(), 'self.quoted')]
     if wraps:
         for ch, why in sorted(T.MK_SQ_AUTOVAR.items()):
-            ctx.ob(R, '{}|MK_SQ_AUTOVAR|{!r}'.format(f.fq, ch), False, f.node,
+            ctx.ob(R, 'MK_SQ_AUTOVAR|{!r}'.format(ch), False, f.node,
                    "a quoted variable is emitted as '$(name)'/'$@': Make "
                    "substitutes the value verbatim inside sh single quotes, "
                    "so {!r} in the value ({}) is not neutralised".format(
                        ch, why))
     else:
-        ctx.ob(R, f.fq + '|MK_SQ_AUTOVAR|no-quoted-variables', True, f.node,
+        ctx.ob(R, 'MK_SQ_AUTOVAR|no-quoted-variables', True, f.node,
                'Variable.use no longer wraps references in quotes')
 
 
 def target_var_scope(ctx):
+    from ..facts import direct, has, has_call, has_const, param_of
     R = 'TARGET-VAR-SCOPE'
     ctx.rule(R, 'per-target compile/link options are Make target-specific '
              'variables whose default is the pattern-specific `%: VAR := '
@@ -123,26 +130,31 @@ def target_var_scope(ctx):
              'to prerequisites, the `%:` default stops that inheritance, so '
              'options of one target never reach another target\'s command '
              'line')
-    repo = ctx.repo
-    f = repo.func('bfg9000.backends.make.writer:flags_vars')
-    vals = [v for v in Q.local_assignments(f.node, 'flags') if v is not None]
-    ok = len(vals) == 1 and isinstance(vals[0], ast.Call) and unparse(
-        vals[0].func) == 'buildfile.target_variable' and len(
-            vals[0].args) >= 2 and unparse(vals[0].args[1]) == 'gflags'
+    F = _facts(ctx)
+    f = F.fn('bfg9000.backends.make.writer:flags_vars')
+    tv = F.calls_to(f, 'target_variable', depth=1)
+    gv = F.calls_to(f, 'variable', depth=1)
+    r = F.returns(f)
+    ok = bool(tv) and bool(gv) and all(
+        has_call(direct(e.arg(1)), 'variable') for e in tv) and \
+        has_call(r, 'target_variable') and has_call(r, 'variable')
     ctx.ob(R, 'make.flags_vars|default-is-pattern-specific', ok, f.node,
-           'the per-target flags variable is defined as {}: a plain global '
-           'lets a target\'s options leak into its prerequisites\' '
-           'recipes'.format(unparse(vals[0]) if vals else None))
-    w = repo.method(E.MAKE_SYN + ':Makefile', 'write')
-    ok = any(isinstance(n, ast.For) and unparse(n.iter) ==
-             'self._target_variables' and 'target=target' in unparse(n)
-             for n in ast.walk(w.node)) and "target = Pattern('%')" in \
-        unparse(w.node)
+           'the per-target flags variable is not a target-specific variable '
+           'defaulting to the global one: a plain global lets a target\'s '
+           'options leak into its prerequisites\' recipes')
+    w = F.fn(E.MAKE_SYN + ':Makefile.write')
+    wv = [e for e in F.calls_to(w, '_write_variable', depth=1)
+          if has(e.all_args(), 'self._target_variables')]
+    ok = bool(wv) and all(any("Pattern('%')" in a
+                              for a in e.arg(4, kw='target'))
+                          for e in wv)
     ctx.ob(R, 'Makefile.write|target-variables-under-%', ok, w.node,
            'default target variables are not written as `%: NAME := ...`')
-    wr = repo.method(E.MAKE_SYN + ':Makefile', '_write_rule')
-    ok = 'self._write_variable(out, name, value, target=target)' in unparse(
-        wr.node) and 'for target in rule.targets' in unparse(wr.node)
+    wr = F.fn(E.MAKE_SYN + ':Makefile._write_rule')
+    wv = [e for e in F.calls_to(wr, '_write_variable', depth=1)
+          if has(e.all_args(), 'variables')]
+    ok = bool(wv) and all(has(e.arg(4, kw='target'), 'targets')
+                          for e in wv)
     ctx.ob(R, 'Makefile._write_rule|rule-variables-are-target-specific', ok,
            wr.node, 'rule variables are not written per target')
 
@@ -161,19 +173,49 @@ def check(ctx):
         'what GNU Make really does with each character (taken from '
         'sa/tables.py)']
     table, members, sites = make_sites(ctx)
-    E.esc_rule(ctx, 'ESC-MAKE', sites, table,
-               only_contexts={'MK_VARVALUE', 'MK_RECIPE', 'MK_DEFINE'})
+    E2.esc_members(ctx, 'ESC-MAKE', E.MAKE_SYN, table,
+                   {'MK_VARVALUE', 'MK_RECIPE', 'MK_DEFINE'},
+                   only_members={'shell', 'clean'})
     # argument positions only: path contexts belong to C04
     esc_make_extra(ctx, table)
-    E.position_rule(ctx, 'SYNTAX-POSITION', [
-        s for s in sites if any(c in ('MK_VARVALUE', 'MK_RECIPE',
-                                      'MK_DEFINE') for c in s[2])])
-    E.write_flow(ctx, E.MAKE_SYN, {'function', 'shell'})
-    E.lit_sites(ctx, [E.MAKE_SYN, 'bfg9000.backends.make.writer',
-                      'bfg9000.builtins.find'], minimum=18)
-    E.literal_origin(ctx)
-    E.sh_safe(ctx, include_make_recipe=True)
+    shell_roles = [r for r in E2.MAKE_ROLES
+                   if set(r[1]) & {'shell', 'clean'}]
+    E2.position_rule(ctx, 'SYNTAX-POSITION', sites, shell_roles, 'make')
+    E2.write_flow(ctx, E.MAKE_SYN, {'function', 'shell'})
+    E2.lit_sites(ctx, [E.MAKE_SYN, 'bfg9000.backends.make.writer',
+                       'bfg9000.builtins.find'], minimum=12)
+    E2.literal_origin(ctx)
+    E2.sh_safe(ctx, include_make_recipe=True)
     target_var_scope(ctx)
     from ..rules import graph as G
-    ctx.rule('ENV-EXPORT', 'command steps export their environment for every command of the step')
-    G.env_export(ctx, 'ENV-EXPORT', backends=('make',))
+    ctx.rule('ENV-EXPORT', 'command steps export their environment for '
+             'every command of the step')
+    _env_export(ctx, 'ENV-EXPORT', ('make',))
+
+
+def _env_export(ctx, rule_id, backends):
+    from ..facts import Facts, direct, has, has_call
+    F = getattr(ctx, '_facts', None)
+    if F is None:
+        F = ctx._facts = Facts(ctx.repo)
+    K = 'bfg9000.builtins.command:'
+    table = {'make': (K + 'make_command', 'recipe'),
+             'ninja': (K + 'ninja_command', 'command'),
+             'compdb': (K + 'compdb_copy_file', 'arguments')}
+    for b in backends:
+        fq, kw = table[b]
+        f = F.fn(fq)
+        p = Q.params(f.node)[0]
+        ems = [e for e in F.effects(f, lambda e: Q.kwarg(e.call, kw)
+                                    is not None, depth=0)]
+        ok = bool(ems) and all(
+            has_call(e.arg(kw=kw), 'global_env') and has(
+                e.arg(kw=kw), p + '.env') and has(e.arg(kw=kw), p + '.cmds')
+            and all('global_env(' in a
+                    for a in direct(e.arg(kw=kw, shallow=True))
+                    if not a.startswith(('const:', 'alloc:')))
+            for e in ems)
+        ctx.ob(rule_id, 'env-export|' + fq, ok, f.node,
+               '{} does not pass exactly global_env(rule.env, rule.cmds) as '
+               'the command: the step environment is not exported for every '
+               'command of the step'.format(fq.split(':')[1]))
